@@ -56,6 +56,21 @@ impl Default for SDesc {
 }
 
 pub fn p(s: &str) -> syn::Path {
+    // `a::B(X, Y)`: syn does not parse parenthesised arguments on arbitrary paths, build them
+    if let (Some(open), true) = (s.find('('), s.trim_end().ends_with(')')) {
+        let mut base: syn::Path = syn::parse_str(&s[..open]).unwrap_or_else(|e| panic!("path `{s}`: {e}"));
+        let inner = &s[open + 1..s.trim_end().len() - 1];
+        let inputs: syn::punctuated::Punctuated<syn::Type, syn::Token![,]> =
+            syn::parse::Parser::parse_str(syn::punctuated::Punctuated::parse_terminated, inner)
+                .unwrap_or_else(|e| panic!("arguments of `{s}`: {e}"));
+        base.segments.last_mut().unwrap().arguments =
+            syn::PathArguments::Parenthesized(syn::ParenthesizedGenericArguments {
+                paren_token: Default::default(),
+                inputs,
+                output: syn::ReturnType::Default,
+            });
+        return base;
+    }
     syn::parse_str(s).unwrap_or_else(|e| panic!("path `{s}`: {e}"))
 }
 
